@@ -463,7 +463,14 @@ func (c *Checker) narrowInstanceOf(left, right ast.ExpressionNode, assume assump
 	case assumptionTruthy:
 		local.typ = types.NewExact(class)
 	case assumptionFalsy:
-		local.typ = c.differenceType(local.typ, class)
+		if class.IsSealed() {
+			// a sealed class has no subclasses, all of its instances are direct instances
+			local.typ = c.differenceType(local.typ, class)
+		} else {
+			// only direct instances of the class are excluded,
+			// the value can still be an instance of a subclass
+			local.typ = c.differenceType(local.typ, types.NewExact(class))
+		}
 	case assumptionNotNil:
 	case assumptionNever, assumptionNil:
 		local.typ = types.Never{}
